@@ -10,7 +10,7 @@ rc=0
 for src in "$@"; do
   W=$(mktemp -d /tmp/cr.XXXXXX)
   git -C /repo worktree add -q --detach "$W/r" HEAD || exit 2
-  ( cd "$W/r" && git apply "$src/patch.diff" && go build ./... && go vet ./authenticode/... ./efi/... ./efivarfs/... ./pkcs7/... ./efivar/... >/dev/null 2>&1; go test -vet=off -count=1 $SUITE ) >"$W/log" 2>&1
+  ( cd "$W/r" && git apply "$src/patch.diff" && go build ./... && { go vet ./authenticode/... ./efi/... ./efivarfs/... ./pkcs7/... ./efivar/... >/dev/null 2>&1; go test -vet=off -count=1 $SUITE; } ) >"$W/log" 2>&1
   r=$?
   nm=$(basename "$(dirname "$src")")/$(basename "$src")
   if [ $r -eq 0 ]; then echo "$nm: applies, builds, suite passes"; else echo "$nm: FAILED"; tail -5 "$W/log" | cut -c1-200; rc=1; fi
